@@ -136,8 +136,13 @@ def odd_command_case(args):
     seed, i = args
     rng = random.Random(seed * 32452883 + i)
     sp = t3.Spec(maxtasks=rng.randint(2, 3), bufsize=rng.choice([1, 128]))
-    kind = i % 2
-    if kind == 0:
+    kind = i % 3
+    if kind == 2:
+        # the command exits 0 but leaves only a dangling symbolic link where a declared output should be: the output is missing
+        big = sp.proc(t3.RawProc("linker", "ln -s no_such_result.v%d.txt {o:out}" % rng.randint(1, 9), ins=[], outs=[("out", "latest.txt")]))
+        sp.proc(t3.RawProc("dep", "cat {i:in} > {o:out} ; echo ran >> ../dep.ran", ins=[("in", [(big, "out")])], outs=[("out", "{i:in}.dep")]))
+        victim_outs, what = ["latest.txt"], "a command that exits 0 but leaves a dangling symbolic link as its declared output"
+    elif kind == 0:
         n = rng.choice([1000, 131000, 131072, 140000, 300000])
         blob = "x" * n
         big = sp.proc(t3.RawProc("big", "echo {p:blob} > {o:out} && grep -q NOSUCHTHING {o:out}", ins=[], pars=[("blob", ("V", [blob]))], outs=[("out", "big.out")]))
@@ -166,7 +171,7 @@ def odd_command_case(args):
         if "dep.ran" in impl["fs"]:
             problems.append(("dependant-executed", "%s: a task that depends on its output executed" % what))
         return {"spec": sp.text(with_files=False)[:4000], "bufsize": sp.bufsize, "problems": problems, "ntasks": 2, "rc": impl["rc"], "stderr": impl["stderr"][-300:],
-                "yield": None, "wall": impl["wall"], "mode": "long-command" if kind == 0 else "sigpipe", "gofunc": False, "status": "fail"}
+                "yield": None, "wall": impl["wall"], "mode": ["long-command", "sigpipe", "dangling-link"][kind], "gofunc": False, "status": "fail"}
     finally:
         sc.close()
 
